@@ -6,7 +6,6 @@ import (
 	"time"
 
 	"github.com/hashicorp/go-multierror"
-	"gopkg.in/robfig/cron.v2"
 	v1 "k8s.io/api/admissionregistration/v1"
 	metav1 "k8s.io/apimachinery/pkg/apis/meta/v1"
 	"k8s.io/apimachinery/pkg/runtime/schema"
@@ -358,7 +357,7 @@ func (cv1 *HookConfigV1) ConvertSchedule(schV1 ScheduleConfigV1) (htypes.Schedul
 func (cv1 *HookConfigV1) CheckSchedule(kubeConfigs []htypes.OnKubernetesEventConfig, schV1 ScheduleConfigV1) error {
 	var allErr error
 
-	if _, err := cron.Parse(schV1.Crontab); err != nil {
+	if _, err := ParseCrontab(schV1.Crontab); err != nil {
 		allErr = multierror.Append(allErr, fmt.Errorf("crontab is invalid: %w", err))
 	}
 
